@@ -355,7 +355,7 @@ def run_file_cvals(ctx, desc):
     if not desc.get("mapped"):
         return
     # mapped user-defined controllers of a MetaModule
-    targets = [("Amplifier", "balance"), ("Amplifier", "volume"), ("Amplifier", "bipolar_dc_offset"), ("Generator", "panning"), ("Lfo", "amplitude")]
+    targets = [("Amplifier", "balance"), ("Amplifier", "volume"), ("Amplifier", "bipolar_dc_offset"), ("Generator", "panning"), ("Lfo", "amplitude"), ("MultiSynth", "transpose"), ("MultiSynth", "random_phase")]
     for tname, cname in targets:
         tc = spec[tname].ctl(cname)
         tcls = classes[spec[tname].mtype]
@@ -388,6 +388,13 @@ def run_file_cvals(ctx, desc):
                     back = mm.clone()
                 if got is not None:
                     ctx.check(len(got) > 5 and got[5] == want, "C10.mapped.file", "%s=%d (%s): file holds %r, expected %d" % (rec["entity"], v, path, got[5:6], want), key="C10.mapped.file:" + rec["entity"], recipe=rec)
+                # the pattern (XXYY) value of the user-defined controller is that of the controller it stands for -
+                # on the MetaModule that has just adopted the mapping and on the one that came back
+                tmod = mm.project.modules[1]
+                want_pat = tcls.controllers[cname].pattern_value(tmod, v)
+                for who, obj in (("adopted", mm), ("back", back)):
+                    got_pat = type(obj).controllers["user_defined_1"].pattern_value(obj, v) if "user_defined_1" in type(obj).controllers else obj.controllers["user_defined_1"].pattern_value(obj, v)
+                    ctx.check(got_pat == want_pat, "C10.mapped.pattern_value", "%s=%d (%s, %s): pattern value %r, the mapped controller's own is %r" % (rec["entity"], v, path, who, got_pat, want_pat), key="C10.mapped.pattern_value:" + rec["entity"], recipe=rec)
                 ctx.check(back.user_defined_1 == v, "C10.mapped.back", "%s=%d (%s): comes back as %r" % (rec["entity"], v, path, back.user_defined_1), key="C10.mapped.back:" + rec["entity"], recipe=rec)
                 ctx.mark_nontrivial(["mapped", rec["entity"], v, path])
     ctx.label("mapped_user_defined_stored_value")
